@@ -1,26 +1,25 @@
 (* Proofs/Ata.v — SAT transfer rules for the two ATA PASS-THROUGH constructors: a complete sweep of the
-   flag space (T_LENGTH x BYT_BLOK x T_TYPE x T_DIR x block size x extra_tl x data present) evaluated
-   inside the kernel on the REGENERATED constructor IR.  The remaining arguments (protocol, lba,
-   command, ...) are fixed: the sweep is finite and says so. *)
+   flag space (T_LENGTH x BYT_BLOK x T_TYPE x T_DIR x block size x extra_tl x data present x COUNT in {0, 5, 256} x FEATURES in {0, 3})
+   evaluated inside the kernel on the REGENERATED constructor IR.  The remaining arguments (protocol, lba,
+   command, ...) are fixed: the sweep is finite and says so.  COUNT / FEATURES 0 matter: the SAT length is the unsigned number in the
+   field, so 0 announces no data at all (it is NOT the ATA "0 means 256 sectors" rule). *)
 From Coq Require Import String.
 From PS Require Import Base.Bytes Base.Result Model.Converter Model.Command Model.Ctor Model.InitCdb Model.CorrUtil.
 From PS Require Import Spec.CdbFormats.
 Open Scope string_scope.
 Open Scope N_scope.
 
-Record ata_flags := mkAF { af_tlen : N; af_bb : N; af_tt : N; af_dir : N; af_bs : N; af_extra : option N; af_data : option bytes }.
+Record ata_flags := mkAF { af_tlen : N; af_bb : N; af_tt : N; af_dir : N; af_bs : N; af_extra : option N; af_data : option bytes; af_cnt : N; af_feat : N }.
 
 Definition all_flags : list ata_flags :=
   flat_map (fun tl => flat_map (fun bb => flat_map (fun tt => flat_map (fun dir => flat_map (fun bs =>
-  flat_map (fun ex => map (fun da => mkAF tl bb tt dir bs ex da) [None; Some [1; 2; 3]])
+  flat_map (fun ex => flat_map (fun da => flat_map (fun cnt => map (fun ft => mkAF tl bb tt dir bs ex da cnt ft) [0; 3]) [0; 5; 256])
+    [None; Some [1; 2; 3]])
     [None; Some 7]) [0; 512; 4096]) [0; 1]) [0; 1]) [0; 1]) [0; 1; 2; 3].
-
-Definition FEAT : N := 3.
-Definition COUNT : N := 5.
 
 Definition ata_kw (f : ata_flags) : list (string * cval) :=
   [("protocal", CInt 4); ("t_length", CInt (af_tlen f)); ("byte_block", CInt (af_bb f)); ("t_dir", CInt (af_dir f));
-   ("t_type", CInt (af_tt f)); ("off_line", CInt 0); ("fetures", CInt FEAT); ("count", CInt COUNT); ("lba", CInt 0);
+   ("t_type", CInt (af_tt f)); ("off_line", CInt 0); ("fetures", CInt (af_feat f)); ("count", CInt (af_cnt f)); ("lba", CInt 0);
    ("command", CInt 236); ("blocksize", CInt (af_bs f));
    ("extra_tl", match af_extra f with Some n => CInt n | None => CNone end);
    ("data", match af_data f with Some b => CBytes b | None => CNone end)].
@@ -28,7 +27,7 @@ Definition ata_kw (f : ata_flags) : list (string * cval) :=
 (* what SAT-3 prescribes for these flags: Some (out_len, in_len), or None = refused (no block size) *)
 Definition ata_expected (f : ata_flags) : option (N * N) :=
   if negb (af_tlen f =? 0) && negb (af_bb f =? 0) && negb (af_tt f =? 0) && (af_bs f =? 0) then None else
-  let n := ata_count (af_tlen f) FEAT COUNT (af_extra f) * ata_unit (af_bb f) (af_tt f) (af_tlen f) (af_bs f) in
+  let n := ata_count (af_tlen f) (af_feat f) (af_cnt f) (af_extra f) * ata_unit (af_bb f) (af_tt f) (af_tlen f) (af_bs f) in
   if af_dir f =? 0 then Some (n, 0) else Some (0, n).
 
 Definition buf_is (v : cval) (n : N) (data : option bytes) (is_data_dir : bool) : bool :=
